@@ -27,7 +27,7 @@ Exec::~Exec() {}
 
 void Exec::T(const std::string &line) {
 	th.add(line);
-	if (trace) { transcript += line; transcript += "\n"; }
+	if (trace) out_line("T " + line);
 }
 void Exec::violate(const std::string &prop, const std::string &cls, const std::string &detail, bool hard) {
 	for (auto &v : res.violations) if (v.prop == prop && v.cls == cls) return;
@@ -82,7 +82,9 @@ void Exec::after_lib_call(const std::string &what) {
 }
 
 // ------------------------------------------------------------------ building a library object from a model
-mpq_QSprob Exec::lib_build(const LP &lp, const std::string &how_in, std::string *err) {
+mpq_QSprob Exec::lib_build(const LP &lp_in, const std::string &how_in, std::string *err) {
+	LP lp = lp_in;   // explicit zeros are a residue of QSchange_coef(..,0); a fresh build does not pass them
+	for (auto &r : lp.rows) for (auto it = r.coef.begin(); it != r.coef.end();) { if (it->second == 0) it = r.coef.erase(it); else ++it; }
 	size_t n = lp.cols.size(), m = lp.rows.size();
 	std::string how = how_in;
 	bool has_ranged = false; for (auto &r : lp.rows) if (r.sense == 'R') has_ranged = true;
@@ -231,7 +233,7 @@ bool Exec::lib_dump(mpq_QSprob p, int variant, LP &out, std::string &err) {
 		for (int i = 0; i < m; i++) for (int j = 0; j < n; j++) { if (mpq_QSget_coef(p, i, j, tmp.ptr(0))) { err = strf("QSget_coef(%d,%d) failed", i, j); return false; } Q v = lib_to_q(tmp.at(0)); if (v != 0) out.rows[i].coef[j] = v; }
 		if (n) { int *cc = 0, *cb = 0, *ci = 0; mpq_t *cv = 0; rv = mpq_QSget_columns_list(p, n, all_cols.data(), &cc, &cb, &ci, &cv, 0, 0, 0, 0);
 			if (rv) { err = "QSget_columns_list failed"; return false; }
-			for (int j = 0; j < n && err.empty(); j++) for (int k = cb[j]; k < cb[j] + cc[j]; k++) { int row = ci[k]; auto it = out.rows[row].coef.find(j); if (it == out.rows[row].coef.end() || it->second != lib_to_q(cv[k])) err = strf("QSget_columns_list and QSget_coef disagree at (%d,%d)", row, j); }
+			for (int j = 0; j < n && err.empty(); j++) for (int k = cb[j]; k < cb[j] + cc[j]; k++) { int row = ci[k]; Q cvk = lib_to_q(cv[k]); auto it = out.rows[row].coef.find(j); if (cvk == 0 ? it != out.rows[row].coef.end() : (it == out.rows[row].coef.end() || it->second != cvk)) err = strf("QSget_columns_list and QSget_coef disagree at (%d,%d)", row, j); }
 			mpq_QSfree(cc); mpq_QSfree(cb); mpq_QSfree(ci); shim_mpq_free(cv); if (!err.empty()) return false; }
 	}
 	for (auto &r : out.rows) if (r.sense != 'R') r.range = 0;
@@ -244,10 +246,11 @@ bool Exec::lib_dump(mpq_QSprob p, int variant, LP &out, std::string &err) {
 
 void Exec::check_dump(Obj &o, const char *when) {
 	LP got; std::string err;
+	if (trace) out_line("L   basis " + basis_arrays(o) + strf(" factorok=%d qstatus=%d", o.p->factorok, o.p->qstatus));
 	int variant = step + o.uid;
 	bool ok = lib_dump(o.p, variant, got, err);
 	after_lib_call("query");
-	if (!ok) { violate("C06", std::string("query-failed:") + (op ? op->kind : "?"), std::string(when) + ": " + err); return; }
+	if (!ok) { violate("C06", std::string("query-failed:") + (op ? op->kind : "?"), std::string(when) + ": " + err); o.broken = true; return; }
 	std::string a = got.canon(), b = o.m.canon();
 	if (a == b && (got.lib_nzcount < o.m.nz() || got.lib_nzcount > o.m.nz() + o.m.zeros()))
 		violate("C06", std::string("nzcount:") + (op ? op->kind : "?") + (op && op->has("what") ? ":" + op->s("what") : ""), strf("%s: QSget_nzcount=%d but the problem has %d nonzeros (+%d explicit zeros)", when, got.lib_nzcount, o.m.nz(), o.m.zeros()));
@@ -256,6 +259,7 @@ void Exec::check_dump(Obj &o, const char *when) {
 		std::vector<std::string> la = split(a, '\n'), lb = split(b, '\n'); std::string d;
 		for (size_t i = 0; i < std::max(la.size(), lb.size()); i++) { std::string x = i < la.size() ? la[i] : "<none>", y = i < lb.size() ? lb[i] : "<none>"; if (x != y) { d = "library: " + x + " | model: " + y; break; } }
 		violate("C06", std::string("dump-mismatch:") + (op ? op->kind : "?") + (op && op->has("what") ? ":" + op->s("what") : ""), std::string(when) + strf(" (variant %d): ", variant % 3) + d);
+		o.broken = true;
 	}
 }
 
